@@ -56,7 +56,11 @@ func (ds *dsContext) convert(value px.Value) px.Value {
 					switch v.(type) {
 					case px.ObjectType, px.TypeSet, *types.TypeAliasType:
 						// Ensure that type is made known to current loader
-						rt := v.(px.ResolvableType)
+						rt, ok := v.(px.ResolvableType)
+						if !ok {
+							// a parameterized Object type (My::Type[args]) extends a type that is known already
+							return v
+						}
 						n := rt.Name()
 						if n == `` {
 							// Anonymous type. Just resolve.
